@@ -168,7 +168,7 @@ func c11OpenWorld(seed int64) (*gen.World, []gen.WeightedName, *model.Index, *c0
 var c11Clients = []struct{ ip, loc string }{{"203.0.113.9", ""}, {"10.1.0.5", "aa"}, {"10.2.0.5", "bb"}}
 
 func runC11(r *report.Run) {
-	r.SetRule("generated files with names carrying 1-8 address candidates (weights 0,1,2,3,7,10,100,2^32-1; all-zero, uniform and ratio shapes; A and AAAA; untagged and location-tagged; exact and wildcard owners) and NS/MX targets with several weighted addresses (also two MX records naming one host whose addresses are all of one family), on CDB/RocksDB v1/v2. Per configuration (name, type, client location, max-answer 1..8) N identical queries are sent from 16 goroutines; every response must hold <= max distinct records of the visible declared set, exactly min(max, positive-weight candidates) of them, never a weight-0 one, with NOERROR while the name has records. For max=1 and for additional-section addresses the selection counts are tested against w_i/sum(w) with a chi-square test, alarm only below p=1e-9. non-trivial = configuration with >=2 visible candidates; distinct by configuration")
+	r.SetRule("generated files with names carrying 1-8 address candidates (weights 0,1,2,3,7,10,100,2^32-1; all-zero, uniform and ratio shapes; A and AAAA; untagged and location-tagged; exact and wildcard owners) and NS/MX targets with several weighted addresses (also two MX records naming one host whose addresses are all of one family), on CDB/RocksDB v1/v2. Per configuration (name, type, client location, max-answer 1..8) N identical queries are sent from 16 goroutines; every response must hold <= max distinct records of the visible declared set, exactly min(max, positive-weight candidates) of them, never a weight-0 one, with NOERROR while the name has records; a handler with the response cache on is asked with max-answer 8, 1, 3, 8, 2 in turn (listeners with different settings share one handler) and must respect each. For max=1 and for additional-section addresses the selection counts are tested against w_i/sum(w) with a chi-square test, alarm only below p=1e-9. non-trivial = configuration with >=2 visible candidates; distinct by configuration")
 	r.Assume("statistical part: false-alarm probability < 1e-9 per tested configuration; a single short/weight-0 response per configuration (the implementation's 2^-32 boundary draws) is re-run and only a recurrence counts")
 	nworlds := r.Pick(3, 8)
 	nInv := r.Pick(150, 400)
@@ -272,6 +272,7 @@ func runC11(r *report.Run) {
 		wg.Wait()
 		// additional section: NS glue (referral) and MX target
 		c11Additional(r, servers, ix, seed, nProp/2)
+		c11CachedMax(r, w, names, ix, seed)
 		servers.close()
 		if r.Violations() >= 10 {
 			break
@@ -279,6 +280,55 @@ func runC11(r *report.Run) {
 	}
 	// the shared generator under the race detector
 	c11Race(r)
+}
+
+// c11CachedMax: one handler with the response cache on serves listeners with different max-answer settings (as
+// fbserver does): a name is asked with max-answer 8, then 1, then 3 - each response must hold min(max, positive
+// candidates) addresses whatever an earlier response to another listener looked like.
+func c11CachedMax(r *report.Run, w *gen.World, names []gen.WeightedName, ix *model.Index, seed int64) {
+	servers, err := openAll(w.Text(), harness.ServerOpts{Cache: true})
+	if err != nil {
+		r.Inconclusive("cached servers: " + err.Error())
+		return
+	}
+	defer servers.close()
+	for _, sv := range servers.srv {
+		for _, n := range names {
+			if n.Wild {
+				continue
+			}
+			for _, t := range []uint16{dns.TypeA, dns.TypeAAAA} {
+				positive := 0
+				for _, c := range c11Candidates(ix, n.Name, false, "", t) {
+					if c.weight > 0 {
+						positive++
+					}
+				}
+				for _, max := range []int{8, 1, 3, 8, 2} {
+					res := sv.Serve(harness.MakeQuery(gen.Presentation(n.Name), t, 7), harness.NewWriter("203.0.113.9", false), max)
+					r.Count("cached_handler_responses", 1)
+					if res.Msg == nil {
+						continue
+					}
+					got := 0
+					for _, rr := range res.Msg.Answer {
+						if rr.Header().Rrtype == t {
+							got++
+						}
+					}
+					want := positive
+					if want > max {
+						want = max
+					}
+					if got != want {
+						r.Violation("", fmt.Sprintf("%s (response cache on): %s type %d asked with max-answer %d (after other max-answer settings) holds %d addresses, prescribed %d (positive-weight candidates %d)", sv.B.Name, n.Name, t, max, got, want, positive),
+							c11Config{WorldSeed: seed, Backend: sv.B.Name, QName: n.Name, QType: t, IP: "203.0.113.9", Max: max})
+						return
+					}
+				}
+			}
+		}
+	}
 }
 
 func c11Additional(r *report.Run, servers *c01Servers, ix *model.Index, seed int64, n int) {
